@@ -1195,6 +1195,8 @@ type typeParser struct {
 	input  string
 	index  int
 	logger StdLogger
+	// depth is the nesting depth of the class being parsed
+	depth int
 }
 
 // the type definition parser result
@@ -1391,6 +1393,14 @@ func (class *typeParserClassNode) asTypeInfo() TypeInfo {
 
 // CLASS := ID [ PARAMS ]
 func (t *typeParser) parseClassNode() (node *typeParserClassNode, ok bool) {
+	// the text comes from the schema tables: a definition nested deeper than
+	// maxTypeInfoDepth is not followed (it is then treated like any other malformed one)
+	t.depth++
+	defer func() { t.depth-- }()
+	if t.depth > maxTypeInfoDepth {
+		return nil, false
+	}
+
 	t.skipWhitespace()
 
 	startIndex := t.index
